@@ -18,6 +18,7 @@ class Rec(object):
 		self.decode = {}
 		self.r2047 = {}
 		self.trailer = {}
+		self.connect = {}
 		self.cur_line = None
 		self.cur_ce = None
 		self.lf_mode = False
@@ -185,6 +186,24 @@ def machines():
 			super(RClient, self).__init__()
 			self.request = Request()
 
+		def remove_invalid_headers(self):
+			"""T3 table c_connect: does the client machine strip the framing fields of this message?  Black-box probe: both fields are
+			made present (sentinels where absent), the original method runs, and what is left tells; then the sentinels are taken out again"""
+			h = self.message.headers
+			names = ('Transfer-Encoding', 'Content-Length')
+			absent = [n for n in names if n not in h]
+			for n in absent:
+				dict.__setitem__(h, n, b'0' if n == 'Content-Length' else b'chunked')
+			super(RClient, self).remove_invalid_headers()
+			stripped = all(n not in h for n in names)
+			if not stripped:
+				for n in absent:
+					if n in h:
+						dict.__delitem__(h, n)
+			line = getattr(self, '_verif_line', None)
+			if line is not None:
+				REC.connect[line] = bool(stripped)
+
 	return RServer, RClient
 
 
@@ -199,7 +218,10 @@ def new_machine(kind):
 		_M = machines()
 	if kind == 'server':
 		return _M[0]('http', 'localhost', 8090)
-	return _M[1]()
+	m = _M[1]()
+	if kind == 'client-connect':   # the client machine answering a CONNECT request
+		m.request.method = 'CONNECT'
+	return m
 
 
 def msg_obs(m, kind):
@@ -267,6 +289,7 @@ def run(kind, frags, record=True):
 			'decode': [[[k[0].hex(), k[1].hex()], [v[0], v[1].hex()] if v[0] == 'ok' else list(v)] for k, v in REC.decode.items()],
 			'r2047': [[k.hex(), list(v)] for k, v in REC.r2047.items()],
 			'trailer': [[k.hex(), [v[0], [n.hex() for n in v[1]]] if v[0] == 'ok' else list(v)] for k, v in REC.trailer.items()],
+			'connect': [[k.hex(), bool(v)] for k, v in REC.connect.items()],
 		}
 	return o
 
@@ -307,7 +330,8 @@ def coq_tables(t):
 			return 'TrEscape'
 		return '(TrOk %s)' % L([X(bytes.fromhex(n)) for n in v[1]], 'bytes')
 	trl = L([P(X(bytes.fromhex(k)), tr(v)) for k, v in t['trailer']], '(bytes * trres)')
-	return '{| t_start := %s; t_hdrs := %s; t_decode := %s; t_2047 := %s; t_trailer := %s |}' % (start, hd, dec, r, trl)
+	con = L([P(X(bytes.fromhex(k)), B(v)) for k, v in t.get('connect', [])], '(bytes * bool)')
+	return '{| t_start := %s; t_hdrs := %s; t_decode := %s; t_2047 := %s; t_trailer := %s; t_connect := %s |}' % (start, hd, dec, r, trl, con)
 
 
 def coq_msg(m):
